@@ -8,7 +8,7 @@ def run(tier):
     c = vlib.Check("C11", tier)
     exe = vlib.build(["drv_textenc"])["drv_textenc"]
     c.mc("TextEnc", "MC_TextEnc", workers=8, timeout=900)
-    traces = c.drive(exe, [["@OUT", tier, sd] for sd in vlib.seeds(tier, 3)], tag="enc")
+    traces = c.drive(exe, [["@OUT", tier, sd] for sd in vlib.seeds(tier, 6)], tag="enc")
     c.traces = len(traces)
     lines = []
     for t in traces:
